@@ -5490,7 +5490,12 @@ class Symbol:
                     or (self.choice is not None and self.orig_type == BOOL)
                 )
                 and self.orig_type
-                and ((not self.choice) or self.choice._user_selection is None)
+                and (
+                    (not self.choice)
+                    or self.choice._user_selection is None
+                    # a selected member that is hidden has no effect: the selection comes from the choice's defaults
+                    or not self.choice._user_selection.visibility
+                )
             )
             # A user value (or a user selection of the enclosing choice) has no effect while the symbol is hidden:
             # the value it shows, and the line written for it, comes from its defaults
